@@ -317,8 +317,9 @@ fn encode_bigint(buf: &mut BytesMut, big: &BigInt) -> Result<(), EncodeError> {
         buf.put_u8(SMALL_BIG_EXT);
         buf.put_u8(len as u8);
     } else {
+        let len = u32::try_from(len).map_err(|_| EncodeError::BinaryTooLarge { size: len })?;
         buf.put_u8(LARGE_BIG_EXT);
-        buf.put_u32(len as u32);
+        buf.put_u32(len);
     }
     buf.put_u8(if big.sign.is_negative() { 1 } else { 0 });
     buf.put_slice(&big.digits);
@@ -363,8 +364,12 @@ fn encode_new_fun_ext_impl(
         encode_term_impl(&mut temp_buf, var, cache)?;
     }
 
+    let size = u32::try_from(temp_buf.len() + 4).map_err(|_| EncodeError::BinaryTooLarge {
+        size: temp_buf.len(),
+    })?;
+
     buf.put_u8(NEW_FUN_EXT);
-    buf.put_u32((temp_buf.len() + 4) as u32);
+    buf.put_u32(size);
     buf.put_slice(&temp_buf);
 
     Ok(())
